@@ -542,7 +542,21 @@ func (t *Tracer) condView(fr *Frame, c ssa.Value) (vfr *Frame, v ssa.Value, flip
 					continue
 				}
 			}
+			// the negation of a merged value inside a helper the path went through (`a && !(b && c)`): the edge
+			// the path came in over decides what is negated
+			if _, isPhi := u.X.(*ssa.Phi); isPhi && vfr != fr {
+				if r := t.Resolve(vfr, u.X); r.V != u.X && r.V != nil {
+					vfr, v, flip = r.Fr, r.V, !flip
+					continue
+				}
+			}
 			return
+		}
+		if ph, isPhi := v.(*ssa.Phi); isPhi && vfr != fr {
+			if r := t.Resolve(vfr, ph); r.V != v && r.V != nil {
+				vfr, v = r.Fr, r.V
+				continue
+			}
 		}
 		if isCallResult(v) {
 			if r := t.Resolve(vfr, v); r.V != v && r.V != nil {
@@ -570,6 +584,8 @@ func (t *Tracer) execIf(fr *Frame, i *ssa.If, st State, k func(State, []Ref)) {
 		dirs = []bool{c}
 	} else if c, ok := constBool(t.Resolve(fr, i.Cond).V); ok {
 		dirs = []bool{c}
+	} else if c, ok := constBool(vcond); ok && vcond != i.Cond {
+		dirs = []bool{c != vflip}
 	} else if v, ok := t.foldCompare(vfr, vcond); ok {
 		dirs = []bool{v != vflip}
 	} else if v, ok := t.evalCond(fr, i.Cond); ok {
